@@ -220,7 +220,14 @@ func execFault(fc FaultCase) (*FaultOutcome, error) {
 	var torsionD string
 	if fc.Craft != nil && fc.Craft.Kind == "addtorsion" {
 		c := fc.Craft
-		s0, err := pump.New(cfg, nil)
+		// a configuration of its own: a resharing session erases the old shares it was handed
+		cfg0, err := BuildConfig(sc)
+		if err != nil {
+			return nil, err
+		}
+		sort.Slice(cfg0.EdKeys, func(i, j int) bool { return cfg0.EdKeys[i].ShareID.Cmp(cfg0.EdKeys[j].ShareID) < 0 })
+		sort.Slice(cfg0.EcKeys, func(i, j int) bool { return cfg0.EcKeys[i].ShareID.Cmp(cfg0.EcKeys[j].ShareID) < 0 })
+		s0, err := pump.New(cfg0, nil)
 		if err != nil {
 			return nil, err
 		}
